@@ -333,6 +333,9 @@ func genValue(t *rapid.T) []byte {
 		return []byte(strings.Repeat(rapid.StringMatching(`[a-z]{1,8}`).Draw(t, "rep"), rapid.IntRange(8, 256).Draw(t, "times")))
 	case 8:
 		return []byte(rapid.SampledFrom([]string{"a;b", " x ", `"q"`, "a; Path=/evil", "x ", " y"}).Draw(t, "lossy"))
+	case 9, 10:
+		// a value that is also the name of a cookie (names and plaintexts of one request must never be confused)
+		return []byte(rapid.SampledFrom(names).Draw(t, "nameasvalue"))
 	default:
 		return []byte(rapid.StringMatching(`[!#-+\--:<-~]{1,40}`).Draw(t, "val"))
 	}
